@@ -251,6 +251,15 @@ def run(ctx, tier):
     from .entries import make_interp
     from .rules_c08 import native_args_rule
     native_args_rule(ctx, make_interp(ctx.model), 'C01.R8', 'C01.R8')
+    # "inside a region" means the closed rectangle / disc: the point predicates and the corner normalisation they rely on
+    from . import rules_c17
+    for rid in ('C17.R1', 'C17.R2'):
+        ctx.rule(rid, 'C17: ' + ('containsPoint is exactly the closed rectangle / closed disc test' if rid.endswith('1') else
+                                 'constructor normalisation x1<=x2, y1<=y2'), floor=4)
+    I17 = make_interp(ctx.model, modular=False)
+    I17.merge_ifs = False
+    rules_c17.point_rules(ctx, I17)
+    rules_c17.ctor_rules(ctx, I17)
     ctx.assume('region geometry and unit conversion are decided by C17 / C08; here the outcome of containsPoint is a '
                'free boolean per (region, point)')
     ctx.assume('non-motion codes that physically move the tool (G28 inside an episode) are outside this check')
